@@ -264,6 +264,13 @@ def c30(ctx):
                     size_lie["other-with-SIZE-zero"] = 0
                     vs["extended-without-SIZE"] = payload + tail
                     size_lie["extended-without-SIZE"] = None
+                    # a manifest whose chunk id is not the hash of its content (ids are caller-chosen; here the hash of an older
+                    # version): the genuine bytes must arrive, bytes that hash to the id instead of the content hash must not
+                    older = bytes((b ^ 0x3C) for b in payload) + b"v1"
+                    older_file = os.path.join(work, "older.bin")
+                    open(older_file, "wb").write(older)
+                    vs["foreign-id-honest"] = payload
+                    vs["foreign-id-bytes-hashing-to-the-chunk-id"] = older
                 for vname, vbytes in vs.items():
                     case += 1
                     tag = "c30.%d" % case
@@ -286,6 +293,8 @@ def c30(ctx):
                             else:
                                 scripted = ScriptedControl(fetch_reply(vbytes))
                             margs = ["make", "--payload", pfile, "--uri-out", uri_file]
+                            if vname.startswith("foreign-id"):
+                                margs += ["--chunk-id-of", older_file]
                             if path == "control-hint":
                                 margs += ["--hint", "control,control,127.0.0.1:%d,0" % scripted.port]
                                 args += ["--control-port", str(dead)]
@@ -324,9 +333,11 @@ def c30(ctx):
                             part.note("fetch.files-written")
                             if hashlib.sha256(got).hexdigest() != want_hash:
                                 part.violation("C30:fetch:wrote-bytes-that-do-not-match-manifest:%s" % path, dict(detail, written_len=len(got)), case)
-                            elif vname == "honest":
+                            elif vname in ("honest", "foreign-id-honest"):
                                 part.note("fetch.honest-successes")
-                        if vname == "honest":
+                        if vname.startswith("foreign-id"):
+                            part.note("fetch.manifests-with-caller-chosen-chunk-id")
+                        if vname in ("honest", "foreign-id-honest"):
                             part.note("fetch.honest-runs")
                             if not exists or rc != 0:
                                 part.violation("C30:fetch:honest-bytes-not-delivered:%s" % path, detail, case)
@@ -390,10 +401,24 @@ def c31(ctx):
     rng = random.Random(ctx["seed"] * 7919 + 31)
     rundir = ctx["rundir"]
     names = list(HOSTILE_NAMES)
-    n = 1500 if ctx["thorough"] else 60
+    # hostile pieces at the end (as the extension), at the start and in the middle of a filler that takes the name beyond the
+    # 255-byte cap: whatever the shortening step keeps must be as clean as a short name
+    for piece in (b".t\x01x:t|\\z", b".x*y?z", b"\\..\\w", b".\x7f\"<>", b"/../q"):
+        names.append(b"a" * 300 + piece)
+    names.append(b"\x01:*" + b"b" * 300)
+    names.append(b"c" * 250 + b"\x1f|?" + b"c" * 250)
+    names.append(b"d" * 252 + b".\x02:e")
+    n = 1500 if ctx["thorough"] else 68
     while len(names) < n:
-        k = rng.randrange(5)
-        if k == 0:
+        k = rng.randrange(6)
+        if k == 5:
+            piece = rng.choice(HOSTILE_NAMES) if rng.random() < 0.5 else bytes(rng.randrange(256) for _ in range(rng.randrange(1, 30)))
+            total = rng.choice([250, 254, 255, 256, 257, 260, 300, 511, 512, 1000])
+            fill = max(1, total - len(piece))
+            fc = rng.choice([b"a", b"b", b".", b" ", b"_"])
+            how = rng.randrange(4)
+            names.append([piece + fc * fill, fc * (fill // 2) + piece + fc * (fill - fill // 2), fc * fill + piece, fc * max(1, fill - 1) + b"." + piece][how])
+        elif k == 0:
             names.append(bytes(rng.randrange(256) for _ in range(rng.randrange(1, 40))))
         elif k == 1:
             base = bytearray(rng.choice(HOSTILE_NAMES))
